@@ -215,7 +215,11 @@ ADDENDA = {
     'C03': ' Also: input-tag clean-up procedures tolerate their second call after EXITM; the name validators reject the empty '
            'string (constant propagation); the IRPN group count is accepted only when positive; every ChkIO() call in the '
            'tools stands under a failure test or after errno = 0; a pointer the function itself tests for NULL is never '
-           'dereferenced unguarded.',
+           'dereferenced unguarded. fread() copy loops end on a short read; no CFG cycle of the disassemblers is free of '
+           'effects (a jump back to its own label); a record field the program itself fills with NULL for some record kinds '
+           'is dereferenced only behind a NULL test or the same record-kind test, with the list cursor advanced once per '
+           'record kind that appended an element (alink); an index that starts at 0 never runs to "<= count" over an array '
+           'that three other loops treat as counted.',
     'C04': ' Also: line bytes are written straight to the file only after the write-behind buffer was flushed.',
     'C05': ' Also: the measuring pass updates start/stop/granularity only for records the copy selects; the target offset of '
            'a record depends on the same lane parameters as the byte-lane filter; dimension check of address/byte arithmetic.'
@@ -229,29 +233,37 @@ ADDENDA = {
            'form of the comparison).',
     'C09': ' Also: no carry/borrow/length adjustment of a fill or length counter is overwritten before it can be observed '
            '(lost update) in the data-definition modules.'
-           ' The range check of a data value is skipped only under FirstPassUnknown|Questionable; string characters reach the emitters as unsigned bytes.',
+           ' The range check of a data value is skipped only under FirstPassUnknown|Questionable; string characters reach the emitters as unsigned bytes.'
+           ' Translated strings are handled by length, never by C-string functions; the half-precision rounding decision reads all cut-off bits.',
     'C10': ' Also: STRUCT set-up touches only the struct pseudo segment; rounding of the program counter is done in the '
            'unsigned address type; ORG and PHASE hold an address operand in the address type; logical and physical addresses '
            'are not mixed; RESTORE actions are independent of each other.',
     'C11': ' Also: default values are never applied because of the argument text; the argument list and its counter move '
-           'together and every formal parameter is substituted; terminator-aware growth of line buffers.',
+           'together and every formal parameter is substituted; terminator-aware growth of line buffers. A loop body is '
+           'queued only for a positive iteration count; body processors clear the first-line flag their restorer tests.',
     'C13': ' Also: nothing but definitions (and look-ups of the name being defined) happens inside a global-scope escape; '
            'section/forward chain searches stop at the first match.'
-           ' Stored user-defined names are compared exactly (case folding only through the CaseSensitive-guarded up-casing).',
+           ' Stored user-defined names are compared exactly (case folding only through the CaseSensitive-guarded up-casing).'
+           ' PUSHV and POPV walk the stack list by the same ordering.',
     'C14': ' Also: no generator consumes shared scratch that only other targets assign; 4004 JCN/ISZ take the page from the '
            'address behind the instruction; masks cover range-checked values.'
-           ' 6502 branch distances are held in 16 bits (wrap at 64K).',
-    'C15': ' Also: assembler and disassembler use the same page reference for 4004 JCN/ISZ.',
+           ' 6502 branch distances are held in 16 bits (wrap at 64K). Overflow tests on displacement adjustments compare '
+           'the operands the adjustment actually used; AVR wrap masks are derived from the word-address limit.',
+    'C15': ' Also: assembler and disassembler use the same page reference for 4004 JCN/ISZ. The disassembler prints labels, '
+           'ORG and hex literals in the syntax the matching assembler accepts; address wrap uses a 2^n-1 mask and the '
+           'next-address slots are read only where they were written.',
+    'C16': ' Also: a generator\'s per-line carrier state is copied only behind the non-empty-statement test.',
     'C17': ' Also: ChkIO() on report outputs stands under a failure test or after errno = 0, so that a report option cannot '
            'abort the assembly through a stale errno.'
            ' Formatted text that is handed back to the caller as a value does not depend on a report option; generated symbol names use only %d/%s and %d ignores -SPLITBYTE.',
     'C18': ' Also: no generator consumes shared scratch only other targets assign; the target\'s SwitchFrom runs inside the '
            'end-of-pass phase before the error accounting is closed.'
-           ' ParseCPUArgs() splits a private copy of the -cpu argument list; lists classified as emptied per pass have a must-kill check.',
+           ' ParseCPUArgs() splits a private copy of the -cpu argument list; lists classified as emptied per pass have a must-kill check.'
+           ' Per-line carrier state of a generator (prefix pending for the next instruction) is reset when the target is initialised.',
     'C19': ' Also: WriteBytes() undoes its byte swap on every path (the listing is produced afterwards).'
-           ' The debug (MAP/NoICE) writers use a fixed radix.',
+           ' The debug (MAP/NoICE) writers use a fixed radix. The include-file line mapping is pushed and popped in pairs.',
     'C20': ' Also: ReadLnCont() advances the returned line count once per physical line, terminated or not; restorer/constructor '
-           'pairing of the position state.',
+           'pairing of the position state. The iteration number of loop positions is normalised in one direction.',
     'C02': ' -Werror promotion is tested inside the emitter on every path to the warning count.',
 }
 for _k, _v in ADDENDA.items():
